@@ -185,3 +185,7 @@ package types
 //@ ensures [consensus-state-of-the-header] result == nil ==> istype(state, *ConsensusState) && bytes.Equal(as(state, *ConsensusState).Root, cs.Header.ToEthHeader().Root.Bytes()) && as(state, *ConsensusState).Height == cs.Header.Height && as(state, *ConsensusState).Timestamp == cs.Header.Time
 //@ nopanic dryrun
 //@ modifies store
+
+// ---- the trusting period is small enough for timestamp + trusting period not to wrap (C18: a created client is active) ----
+// verif:func (ClientState).Validate
+//@ ensures [trusting-period-bounded] result == nil ==> cs.TrustingPeriod <= 0x7fffffffffffffff
